@@ -136,10 +136,15 @@ def run_all(v, hists, wd, tier, pid="C12", ls_after=("open", "write", "pwrite", 
 
     def one_nat(h):
         return wasi.run_history(exe, h["calls"], wd, h["id"] + "-nat", setup=h["setup"], ls_after=ls_after, native_preopen=True)
-    results = pmap(one, hists) + pmap(one_tr, sub) + pmap(one_nat, sub2)
+    # ... or offer pre-opens that are refused (no path, a path beyond the host's limit) before the real one: they take no number
+    sub3 = hists[2::4] if tier == "quick" else hists
+
+    def one_bad(h):
+        return wasi.run_history(exe, h["calls"], wd, h["id"] + "-bad", setup=h["setup"], ls_after=ls_after, bad_preopens=True)
+    results = pmap(one, hists) + pmap(one_tr, sub) + pmap(one_nat, sub2) + pmap(one_bad, sub3)
     distinct = set()
-    tags = [""] * len(hists) + ["-tr"] * len(sub) + ["-nat"] * len(sub2)
-    for h, tag, (recs, index, err, rc, sb) in zip(list(hists) + list(sub) + list(sub2), tags, results):
+    tags = [""] * len(hists) + ["-tr"] * len(sub) + ["-nat"] * len(sub2) + ["-bad"] * len(sub3)
+    for h, tag, (recs, index, err, rc, sb) in zip(list(hists) + list(sub) + list(sub2) + list(sub3), tags, results):
         h2id = h["id"] + tag
         ns = len(h["setup"])
         by_i = {r["i"]: r for r in recs if "i" in r}
